@@ -230,3 +230,52 @@ func VerifC09_q_reloadWhileAllocating() {
 	}
 	verifAssert("C09/agree-after-concurrent-reload", w.agree(), "memory and store disagree after a reload that overlapped an allocation")
 }
+
+
+// BOUND: topologies {0,1}; the administrator reserves any one configured IP (object created in the store, watch event not yet delivered, delivered later, or never); a statefulset pod requesting 1..2 ranges that cover the reserved address is scheduled (filter + bind, retried once after the event); the reservation object must survive and the pod must never be bound with the reserved IP
+func VerifC09_q_reservedVsRangeRequest() {
+	w := vpNewWorld(nondetChoice(2), false)
+	if err := w.configure(); err != nil {
+		return
+	}
+	w.setStatefulSet(3)
+	ri := nondetChoice(len(w.ips))
+	r := w.ips[ri]
+	obj := vpNewFIP(r)
+	obj.Labels[constant.ReserveFIPLabel] = ""
+	obj.Spec.Key = nondetPick("", "admin")
+	w.store.Objs[r] = obj
+	deliverEarly := nondetBool()
+	if deliverEarly {
+		_ = floatingip.VerifHandleFIPEvent(w.plugin.ipam, obj, true)
+	}
+	// requested ranges: one range over all addresses, or the reserved address alone plus the rest
+	ranges := `[["` + w.ips[0] + `~` + w.ips[len(w.ips)-1] + `"]]`
+	if nondetBool() {
+		other := w.ips[(ri+1)%len(w.ips)]
+		ranges = `[["` + other + `"],["` + w.ips[0] + `~` + w.ips[len(w.ips)-1] + `"]]`
+	}
+	name := "ss-0"
+	w.createPod(vpMakePod(name, "U1", vpKindSts, "", "", ranges))
+	w.syncListers()
+	for attempt := 0; attempt < 2; attempt++ {
+		nodes, err := w.filter(name, "n1", "n2", "n3")
+		if err == nil && len(nodes) > 0 {
+			if w.bind(name, nodes[nondetChoice(len(nodes))]) == nil {
+				break
+			}
+		}
+		verifAssert("C09/reservation-survives-failed-bind", w.reservedInStore(r), "the administrator's reservation object was deleted by a failed allocation")
+		if !deliverEarly && nondetBool() {
+			// whatever the store emitted meanwhile reaches the IPAM now: the reservation (if it still exists)
+			if o, ok := w.store.Objs[r]; ok {
+				_ = floatingip.VerifHandleFIPEvent(w.plugin.ipam, o, true)
+			}
+		}
+	}
+	verifReach("range-request-scheduled")
+	verifAssert("C09/reservation-kept-ranges", w.reservedInStore(r), "the administrator's reservation object was overwritten or deleted")
+	for _, ip := range vpBoundIPs(w.pods[name]) {
+		verifAssert("C09/reserved-not-allocated-ranges", ip != r, "a pod requesting IP ranges was bound with a reserved IP")
+	}
+}
